@@ -221,7 +221,12 @@ func runProbes(c *Ctx, prop string, target core.Target) {
 			return
 		}
 		exp := gen.Outcome{}
+		mayReject := false
 		for _, l := range strings.Split(strings.TrimSuffix(string(expb), "\n"), "\n") {
+			if l == "MAY-REJECT" { // a clean compile-time rejection is as good as the listed output
+				mayReject = true
+				continue
+			}
 			if strings.HasPrefix(l, "PANIC ") {
 				exp.Panic = strings.TrimPrefix(l, "PANIC ")
 				continue
@@ -233,6 +238,11 @@ func runProbes(c *Ctx, prop string, target core.Target) {
 		r.Eval()
 		if err != nil {
 			r.Inconclusive(err.Error())
+			return
+		}
+		if !pr.Compile.Accepted() && mayReject && pr.Compile.CleanReject() {
+			r.Nontrivial(id + src)
+			r.Count("probes_ok", 1)
 			return
 		}
 		if !pr.Compile.Accepted() {
